@@ -185,7 +185,7 @@ def make_iterator(M, src, S):
     return S.it
 
 
-def build_from_ctor(M, src, flop, ranges):
+def build_from_ctor(M, src, flop, ranges, suffix=''):
     """state obtained by running the REAL constructor (FlopExhaustiveEvaluatorIterator::new) on a concrete flop and
     concrete small ranges (symbolic weights), then making position, scope end and odometer symbolic.  Fields this harness
     does not know keep the values the constructor gave them.  flop: 3 (rank,suit); ranges: list of lists of ((r,s),(r,s))"""
@@ -201,7 +201,7 @@ def build_from_ctor(M, src, flop, ranges):
         slots = []
         for k, (c1, c2) in enumerate(combos):
             cp = run_fn(M, f_cpnew, [mk_card(*c1), mk_card(*c2)])[0].result
-            w = z3.FP(f'w{p}_{k}', F32)
+            w = z3.FP(f'w{p}_{k}{suffix}', F32)
             cons += [z3.fpGEQ(w, z3.FPVal(0.0, F32)), z3.fpLEQ(w, z3.FPVal(1.0, F32))]
             slots.append([cp, Flt(w), True])
         hrs.append(Agg('HandRange', [PyObj('map', slots=slots)]))
@@ -234,7 +234,7 @@ def build_from_ctor(M, src, flop, ranges):
     S.deck = list(g('current_deck').items)
     S.entries = [list(v.items) for v in g('player_entries').items]
     S.L = [z3.BitVecVal(len(e), 64) for e in S.entries]
-    S.turn, S.river, S.tt, S.rt = z3.BitVec('turn', 8), z3.BitVec('river', 8), z3.BitVec('tt', 8), z3.BitVec('rt', 8)
+    S.turn, S.river, S.tt, S.rt = z3.BitVec('turn' + suffix, 8), z3.BitVec('river' + suffix, 8), z3.BitVec('tt' + suffix, 8), z3.BitVec('rt' + suffix, 8)
     S.cons += position_invariant(S.turn, S.river, S.tt, S.rt)
     for fld, ty in fields:
         k = S.fields.index(fld)
@@ -245,7 +245,7 @@ def build_from_ctor(M, src, flop, ranges):
         elif fld == 'current_player_indexes':
             w = int_width(ty)
             S.idx_bits = w
-            S.idx = [z3.BitVec(f'ix{p}', w) for p in range(S.n)]
+            S.idx = [z3.BitVec(f'ix{p}{suffix}', w) for p in range(S.n)]
             for p in range(S.n):
                 i64 = z3.ZeroExt(64 - w, S.idx[p]) if w < 64 else S.idx[p]
                 S.cons.append(z3.Or(z3.ULT(i64, S.L[p]), z3.And(S.L[p] == 0, S.idx[p] == 0)))
@@ -334,7 +334,7 @@ def position_advanced(S, itv):
     return gt
 
 
-def run_step(M, src, n, empty_ok=False, extra_cons=(), uf_hand=True, prebuilt=None):
+def run_step(M, src, n, empty_ok=False, extra_cons=(), uf_hand=True, prebuilt=None, tls=None, hand_fn=None):
     """execute one frame of next() from the symbolic state; returns (S, outcomes) with outcome dicts:
     kind in {'None','Some','REC','PANIC'}, pc, value (showdown or panic message), state (iterator value at the end / at the cut)"""
     f_next = fn(M, '<FlopExhaustiveEvaluatorIterator as Iterator>::next')
@@ -353,6 +353,11 @@ def run_step(M, src, n, empty_ok=False, extra_cons=(), uf_hand=True, prebuilt=No
         v = z3.BitVec(f'mh{uf[0]}', 16)
         st.pc.append(z3.And(z3.UGE(v, 1), z3.ULE(v, 7462)))
         return Agg('MadeHand', [Int(v, 16)])
+    if hand_fn is not None:
+        # the evaluator as ONE uninterpreted function of the seven cards in the order given: the same cards always give the same value
+        def made_hand(M_, st, args):
+            cards = deref(args[0]).items
+            return Agg('MadeHand', [Int(hand_fn(*[card_key(c) for c in cards]), 16)])
     if uf_hand:
         M.overrides['<[Card; 7] as Into<MadeHand>>::into'] = made_hand
         M.overrides['<MadeHand as From<[Card; 7]>>::from'] = made_hand
@@ -403,6 +408,8 @@ def run_step(M, src, n, empty_ok=False, extra_cons=(), uf_hand=True, prebuilt=No
     M.cut = (f_next.name, outer) if outer is not None else None
     st = State()
     st.pc = list(S.cons)
+    if tls is not None:
+        st.tls = copy.deepcopy(tls)
     cell = Cell('iter', it)
     st.frames = [Frame(f_next, [Ref(cell, [])], None, None)]
     res = M.run(st)
@@ -411,6 +418,7 @@ def run_step(M, src, n, empty_ok=False, extra_cons=(), uf_hand=True, prebuilt=No
     for r in res:
         v = r.result
         itv = r.rootargs[0].cell.v if getattr(r, 'rootargs', None) else None
+        tls_out = r.tls
         if isinstance(v, tuple) and v[0] == 'PANIC':
             outs.append(dict(kind='PANIC', pc=r.pc, value=v[1], where=v[2], state=None))
         elif isinstance(v, tuple) and v[0] == 'CUT':
@@ -421,6 +429,7 @@ def run_step(M, src, n, empty_ok=False, extra_cons=(), uf_hand=True, prebuilt=No
             outs.append(dict(kind='None', pc=r.pc, value=None, state=itv))
         else:
             outs.append(dict(kind='Some', pc=r.pc, value=v.f[0], state=itv))
+        outs[-1]['tls'] = tls_out
     S.cut_head = outer
     return S, outs
 
